@@ -99,10 +99,16 @@ definition.  Every rule preserves results, exceptions and evaluation order:
   N2  ``xs += e`` -> ``xs.extend(e)`` when every binding of local ``xs`` is a freshly built list (``list.__iadd__`` is ``extend``)
   N3  ``yield from xs`` (``xs`` a plain local) -> ``for v in xs: yield v`` (consumers only iterate)
   N4  ``map(str.m, e.split(…))`` -> ``(v.m() for v in e.split(…))``; ``list(map(…))`` -> the list comprehension
+  N5  a call of a private helper *the proofs do not know* (not in ``X4_KNOWN_HELPERS`` / ``SELECTED``), module-level function or
+      method of the caller's class, whose only ``return`` is its last statement, is spliced into the caller when it is the whole
+      right-hand side of a statement (``x = _h(a)``, ``x[k] = _h(a)``, ``return _h(a)``, ``_h(a)``): parameters bound to the
+      arguments in order, locals renamed apart (conditions at ``_inline_helpers``) — extracting / inlining a helper is invisible
   sets  ``x in <module-level / class-level set or frozenset of str / int constants>`` -> ``PyRt.contains_set`` on the members in
         sorted order (hoisting an inline display into a named constant; iteration order of a set is unobservable through ``in``)
   names renaming a local is invisible already: Lean's ``do`` notation orders the state of a loop by declaration, not by name
-Run-time additions of x4: ``PyRt.str_partition`` (one-character separator; defined through ``splitOnMax c 1``).
+Subset additions of x4: list / tuple displays with starred elements (``[*a, x, *b]``: unpacked left to right into a fresh
+list), oracle methods on a local bound once by an oracle constructor (``p = pathlib.PurePosixPath(x)`` … ``p.is_absolute()``),
+``PyRt.str_partition`` (one-character separator; defined through ``splitOnMax c 1``).
 Checks made by the translator (a failure makes the function unsupported):
   * a local changed inside a ``try`` body (other than by its last simple statement) must not be read in a handler or after
     a handler that falls through: Lean's ``try … catch`` restores the locals of the ``try`` start;
@@ -516,7 +522,9 @@ class _X4Normaliser(ast.NodeTransformer):
 # the original statement with `e` in place of the call.  Conditions: `_h` is a module-level function of the same module whose
 # name starts with `_`, is not one of X4_KNOWN_HELPERS (functions with an equivalence theorem of their own) nor SELECTED, has no
 # decorator, no `*args`/`**kwargs`/keyword-only parameters, does not call itself, and its only `return` is its last top-level
-# statement (so control flow needs no encoding); no `yield`, `global`, `nonlocal`, nested `def`/`class`/`lambda`.
+# statement (so control flow needs no encoding); no `yield`, `global`, `nonlocal`, nested `def`/`class`/`lambda`, `try`, `with`;
+# no global or builtin name it uses is a local of the caller.  Also for `self._m(…)` when `_m` is a private method of the caller's
+# class that no class of the module overrides.
 X4_KNOWN_HELPERS = {
     "_parse_letter_version", "_is_not_suffix", "_version_join", "_pad_version", "_cmpkey", "_version_nodot",
     "_py_interpreter_range", "_abi3_applies", "_is_threaded_cpython", "_get_config_var", "_cpython_abis", "_version_split",
@@ -655,10 +663,14 @@ def _inline_helpers(fn, globs, counter=None, depth=0, owner=None):
                     return None
                 bound[p_] = defaults[p_]
                 order.append(p_)
-        counter[0] += 1
-        tag = f"__h{counter[0]}_"
         assigned = {n for s in _walk_scope(h.body) for n in _targets_of(s)}
         loopvars = {t.id for n in ast.walk(h) if isinstance(n, (ast.For, ast.comprehension)) for t in ast.walk(n.target) if isinstance(t, ast.Name)}
+        # a global / builtin the helper refers to must not be shadowed by a local of the caller once the body is spliced in
+        free = {n.id for st_ in h.body for n in ast.walk(st_) if isinstance(n, ast.Name)} - assigned - loopvars - set(params)
+        if free & caller_locals:
+            return None
+        counter[0] += 1
+        tag = f"__h{counter[0]}_"
         mapping = {}
         pre = []
         for p_ in order:
